@@ -58,6 +58,10 @@ func (s *Seg) UnmarshalJSON(b []byte) error {
 type Doc struct {
 	Segs  []Seg  `json:"segs"`
 	Class string `json:"class,omitempty"`
+	// Tail is placed in the spare capacity right behind the document (beyond len): what the
+	// rest of the caller's read buffer holds, e.g. the part of a message that was cut off. Code
+	// that looks beyond len(data) finds a plausible continuation there instead of nothing.
+	Tail []byte `json:"tail,omitempty"`
 }
 
 func docOf(b []byte, class string) Doc {
@@ -98,14 +102,16 @@ const poisonByte = 0xA5
 
 func (d Doc) BytesSpare(spare int) []byte {
 	n := d.Len()
-	out := make([]byte, 0, n+spare)
+	t := len(d.Tail)
+	out := make([]byte, 0, n+t+spare)
 	for _, s := range d.Segs {
 		for i := 0; i < s.N; i++ {
 			out = append(out, s.B...)
 		}
 	}
-	full := out[:n+spare]
-	for i := n; i < n+spare; i++ {
+	full := out[:n+t+spare]
+	copy(full[n:], d.Tail)
+	for i := n + t; i < n+t+spare; i++ {
 		full[i] = poisonByte
 	}
 	return out
